@@ -596,9 +596,45 @@ def check_ir_witnesses(ctx, F):
                                                     "ToString::to_string": lambda a: str(a[0]) if isinstance(a[0], int) else a[0]}))
                 v = fields(f["value"]) if f else None
                 check(f"enumerator {nm} = {orig}", (f["name"], v["value"], v["original_string"]) if f and v else None, (nm, str(val), orig), fn)
-    for sec in (versions, sizes, file_info, container_type, enumerator):
+    def if_statement():
+        # --- conditional structure: values of the if / else-if / else arms --------------------------------------------------
+        fn = F.fn(IR + "container::IrIfStatement::from_statement")
+        if fn is None:
+            ctx.violate("ir.witness", "anchor|from_statement", "IrIfStatement::from_statement not found (anchor disappeared)")
+            return
+        D = "crate::parser::types::definer::"
+        IFS = "crate::parser::types::if_statement::"
+
+        def definer(names):
+            return ("struct", D + "Definer", {"name": "E", "definer_ty": ("variant", "wow_message_parser::rust_printer::DefinerType::Enum"),
+                                              "fields": [("struct", D + "DefinerField", {"name": nm, "value": ("struct", D + "DefinerValue", {"int": i, "original": str(i)}), "tags": None}) for i, nm in enumerate(names)],
+                                              "basic_type": None, "tags": None, "objects_used_in": [], "file_info": None})
+
+        def stmt(eq, vals, members, else_ifs=(), els=(), names=("A", "B", "C", "D", "E")):
+            equation = ("struct", IFS + "Equation::" + eq, {"values": list(vals)} if eq != "NotEquals" else {"value": vals[0]})
+            return ("struct", IFS + "IfStatement", {"variable_name": "x", "equation": equation, "members": list(members), "else_ifs": list(else_ifs), "else_statement_members": list(els),
+                                                    "original_ty": ("ty", definer(names)), "separate_if_statement": False})
+        ov = {"::IrStructMember::from_struct_member": lambda a: ("Some", ("member", a[0])), "::IrType::from_type": lambda a: ("irtype",), "::Type::definer": lambda a: a[0][1],
+              "::is_elseif_flag": lambda a: False}
+
+        def arms(ir):
+            f = fields(ir)
+            return [(f["values"], len(f["members"]))] + [(fields(e)["values"], len(fields(e)["members"])) for e in f["else_if_statements"]]
+        cases = [
+            ("if (x == A) {..} else {..}", stmt("Equals", ["A"], ["m1"], els=["m2"]), [(["A"], 1), (["B", "C", "D", "E"], 1)]),
+            ("if (x == A || x == B) {..}", stmt("Equals", ["A", "B"], ["m1"]), [(["A", "B"], 1)]),
+            ("if (x == A) {..} else if (x == B) {..} else {..}", stmt("Equals", ["A"], ["m1"], else_ifs=[stmt("Equals", ["B"], ["m2"])], els=["m3"]), [(["A"], 1), (["B"], 1), (["C", "D", "E"], 1)]),
+            ("if (x == A || x == C) {..} else if (x == B) {..} else if (x == E) {..} else {..}",
+             stmt("Equals", ["A", "C"], ["m1"], else_ifs=[stmt("Equals", ["B"], ["m2"]), stmt("Equals", ["E"], ["m3", "m4"])], els=["m5"]), [(["A", "C"], 1), (["B"], 1), (["E"], 2), (["D"], 1)]),
+            ("if (x != A) {..}", stmt("NotEquals", ["A"], ["m1"]), [(["B", "C", "D", "E"], 1)]),
+        ]
+        for desc, st_, want in cases:
+            got = arms(run_(fn["path"], [st_], ov))
+            check(f"`{desc}` over enumerators A..E (arm values, member counts)", got, want, fn)
+
+    for sec in (versions, sizes, file_info, container_type, enumerator, if_statement):
         section(sec)
-    ctx.rule("ir.witness", n, floor=20, note="IR conversion functions interpreted on distinguishing instances (version components incl. literal zeros, min/max sizes, line numbers, container kinds with opcodes, enumerator value and spelling)")
+    ctx.rule("ir.witness", n, floor=25, note="IR conversion functions interpreted on distinguishing instances (version components incl. literal zeros, min/max sizes, line numbers, container kinds with opcodes, enumerator value and spelling, values of if / else-if / else arms)")
 
 
 def run(ctx):
